@@ -111,3 +111,10 @@ Theorem C10_every_execution_leaves_an_entry : forall g p sched evs w i u l,
   In evs (snd r) -> In (EStart w i u false l) evs -> nonobjc g i -> (u < Lc g (fst r) i)%nat.
 Proof. exact every_execution_leaves_an_entry. Qed.
 Print Assumptions C10_every_execution_leaves_an_entry.
+
+(* replaying previous jobs: the previous results are exactly the results of all the named jobs *)
+Theorem C10_previous_results_are_all_jobs : forall (jobs : list (option (list (N * status)))) res,
+  previous_results jobs = Some res ->
+  (forall l x, In (Some l) jobs -> In x l -> In x res) /\ (forall x, In x res -> exists l, In (Some l) jobs /\ In x l).
+Proof. intros jobs res H. split; [now apply previous_results_complete | now apply previous_results_sound]. Qed.
+Print Assumptions C10_previous_results_are_all_jobs.
